@@ -126,3 +126,17 @@ pub fn p_eval<C: FieldElement, E: FieldElement + From<C>>(p: &[C], x: E) -> E {
 pub fn p_eq<E: FieldElement>(a: &[E], b: &[E]) -> bool {
     p_trim(a) == p_trim(b)
 }
+
+/// x^e by square-and-multiply (independent of the element type's integer type)
+pub fn pow<E: FieldElement>(x: E, mut e: u128) -> E {
+    let mut b = x;
+    let mut r = E::ONE;
+    while e > 0 {
+        if e & 1 == 1 {
+            r *= b;
+        }
+        b = b.square();
+        e >>= 1;
+    }
+    r
+}
